@@ -88,7 +88,7 @@ CHECKS = {
          'DESIGN.md §3 C10', 'E3'),
  'C20': ('exploration',
          'exhaustive enumeration of the URI grammar product and of driver lists against an independent parser',
-         'Also: every ordered pair of dongle plug states for serial-number ids (parse, replug, parse again) and the serial driver enabled without pyserial. Every URI of the radio grammar product (11 dongle ids incl. case-varied and all-digit serials, channels 0..125, 3 '
+         'Library calls that start threads run under a 60 s real-time bound (a tree on which close()/connect() never returns yields VIOLATION hang:*, not a hanging check). Also: every ordered pair of dongle plug states for serial-number ids (parse, replug, parse again) and the serial driver enabled without pyserial. Every URI of the radio grammar product (11 dongle ids incl. case-varied and all-digit serials, channels 0..125, 3 '
          'rates, 363 address strings of every length 1..10 in three letter cases, 4 omitted-field shapes, 8 query strings) '
          'goes through the real RadioDriver.parse_uri and a stated subset through get_link_driver onto a scripted USB dongle '
          '(settings in force at each transmission are observed); scan_interface for 13 addresses over scripted populations; '
@@ -112,7 +112,7 @@ CHECKS = {
          'DESIGN.md §3 C06', 'E3'),
  'C08': ('exploration',
          'exhaustive enumeration of argument alphabets, protocol versions and headers against an independent reference decoder',
-         'Every public command encoder of Commander, HighLevelCommander, Localization, Extpos, PlatformService and '
+         'Also: every ordered pair (thorough: every ordered triple of the Commander/HighLevelCommander commands) of the 31 commands issued one after the other on one Crazyflie object - each judged as if issued alone, and a packet object already handed to the link must not be rewritten by a later command. Every public command encoder of Commander, HighLevelCommander, Localization, Extpos, PlatformService and '
          'LoPoAnchor is executed on the real Crazyflie object with a recording link behind the real send_packet size check: '
          'one-argument-at-a-time over full float/fixed-point/integer alphabets (incl. float32 overflow threshold, +-inf, '
          'nan, int16 borders), full cross products over reduced alphabets, all argument pairs, protocol versions on both '
@@ -166,7 +166,7 @@ CHECKS = {
          'DESIGN.md §3 C11', 'E3'),
  'C15': ('exploration',
          'exhaustive enumeration of a stated finite grid of directions/poses against references written in the check',
-         'Complete over a stated finite grid: all V1 directions of a +-80 x +-55 degree grid (5 degree steps quick, 1 degree '
+         'Also: views of the 24 exact cube rotations, their 576 products and exact quaternions whose scalar part is exactly zero; every sequence of up to 3 (thorough 4) uses of one Pose object out of {forward, inverse, compose, inverse-compose, views, scale x2, scale x0.5, copy.copy} with the rigid-motion laws re-checked after every step. Complete over a stated finite grid: all V1 directions of a +-80 x +-55 degree grid (5 degree steps quick, 1 degree '
          'thorough) including +-1e-9/1e-6/1e-3 rad, a V2 grid, a rotation x translation lattice (identity, quarter and '
          'half turns, tiny and near-pi rotations, generic literals) with all ordered pose pairs and all triples of a fixed '
          'sub-set, and every lattice combination of base-station pose, deck position, Crazyflie rotation and sensor for '
@@ -258,7 +258,7 @@ CHECKS = {
          'DESIGN.md §3 C09', 'enumeration'),
  'C01': ('model_checking',
          'explicit-state breadth-first search with state de-duplication to a fixpoint over the real radio driver loop against an alternating-bit peer model',
-         'The application may also submit its next packet while a frame is in the air; the packet alphabets contain a header-only uplink packet and a port-15/channel-3 downlink packet with data; the dongle answers with both spellings of ack / no-ack status bytes; a second driver thread is started on a radio whose previous thread confirmed safelink. Explicit-state model checking of the real _RadioDriverThread.run, _send_packet_safe, RadioDriver.send_packet / '
+         'Histories continue through a first reported outage into a second one (the count restarts at an acknowledgement; end after outage 2 is reported or one transmission after a reported outage goes on); radio threads of the pause/restart part are stopped through stop(). The application may also submit its next packet while a frame is in the air; the packet alphabets contain a header-only uplink packet and a port-15/channel-3 downlink packet with data; the dongle answers with both spellings of ack / no-ack status bytes; a second driver thread is started on a radio whose previous thread confirmed safelink. Explicit-state model checking of the real _RadioDriverThread.run, _send_packet_safe, RadioDriver.send_packet / '
          'receive_packet and Crazyradio.send_packet (scripted USB endpoint): the environment is a non-deterministic lossy '
          'channel ({uplink lost, delivered+acked, delivered with ack lost} per transmission, 10 start-up reply kinds), an '
          'alternating-bit safelink peer and an application submitting or idling at every loop. BFS over all choice histories '
